@@ -345,6 +345,36 @@ func C10(tier string) int {
 			classes[alt.Name] = struct{}{}
 			outs["scheme:"+statusOf(got)]++
 		}
+		// the scheme an outbox is served under and the scheme of the ids the application mints are
+		// independent: http endpoint minting https ids, https endpoint minting http ids
+		if base.Entry == "PostOutbox" && ref.Panic == nil {
+			for _, mix := range []struct{ endpoint, ids string }{{"http", "https"}, {"https", "http"}} {
+				mix := mix
+				m := *base
+				m.Name += fmt.Sprintf(" [endpoint scheme=%s, minted ids=%s]", mix.endpoint, mix.ids)
+				m.Scheme = mix.endpoint
+				inner := base.Tweak
+				m.Tweak = func(a *ap.App) {
+					if inner != nil {
+						inner(a)
+					}
+					a.IDScheme = mix.ids
+				}
+				o := m.Exec(mc.NewExec(nil), false)
+				evals++
+				if o.Panic != nil {
+					continue
+				}
+				classes[m.Name] = struct{}{}
+				if statusOf(o) != statusOf(ref) {
+					viols = append(viols, c10viol{"scheme-variant-differs|outcome|mixed-schemes", fmt.Sprintf("scenario %s: outcome %s (err=%v), with matching schemes %s", m.Name, statusOf(o), o.Err, statusOf(ref)), M{"check": "C10", "scenario": m.Name, "part": "scheme"}})
+				} else if o.Err == nil && statusOf(o) == "[201]" {
+					if msg := locationOK(o, o.App.RewriteLocal(m.URL)); msg != "" {
+						viols = append(viols, c10viol{"bad-location|mixed-schemes", fmt.Sprintf("scenario %s: %s", m.Name, msg), M{"check": "C10", "scenario": m.Name, "part": "scheme"}})
+					}
+				}
+			}
+		}
 		e := &mc.Explorer{}
 		e.Budget = [3]int{0, 1, 0}
 		e.Run = func(x *mc.Exec) bool {
@@ -370,7 +400,7 @@ func C10(tier string) int {
 	res.Extra["fault_bound_completed"] = bound
 	res.Extra["request_product"] = len(cases)
 	res.Extra["id_and_required_member_cases"] = len(fams)
-	res.Rule = fmt.Sprintf("(1) C07's request product (%d requests); (2) %d inbox/outbox bodies varying 'id' over {absent,null,\"\",number,object,array,relative,absolute-path,absolute IRI} and object/target over {absent,[]} for every type that requires them; (3) each of %d corpus scenarios fault-free and with every choice of <= %d failing seam calls; (4) each corpus scenario again through PostInboxScheme / PostOutboxScheme / NewActivityStreamsHandlerScheme in a world whose own IRIs are http://: same outcome, status, Location, body and final state as the default entry point (modulo the scheme), trichotomy under single faults; oracle = counting ResponseWriter + return values; distinct = (case class, outcome) or (scenario, choice list)", len(cases), len(fams), len(corpus), bound)
+	res.Rule = fmt.Sprintf("(1) C07's request product (%d requests); (2) %d inbox/outbox bodies varying 'id' over {absent,null,\"\",number,object,array,relative,absolute-path,absolute IRI} and object/target over {absent,[]} for every type that requires them; (3) each of %d corpus scenarios fault-free and with every choice of <= %d failing seam calls; (4) each corpus scenario again through PostInboxScheme / PostOutboxScheme / NewActivityStreamsHandlerScheme in a world whose own IRIs are http://: same outcome, status, Location, body and final state as the default entry point (modulo the scheme), trichotomy under single faults; every outbox scenario also with the endpoint scheme and the scheme of the minted ids differing (http / https and https / http): same status, Location = newest outbox entry = stored id; oracle = counting ResponseWriter + return values; distinct = (case class, outcome) or (scenario, choice list)", len(cases), len(fams), len(corpus), bound)
 	res.Assumptions = []string{"a denying Authenticate* writes its own 401 (counted as the one status of that request)", "ResponseWriter itself never fails",
 		"Announce/Accept/Reject without object are not asserted (neither code nor documentation requires one)"}
 	return res.Finish()
